@@ -2,7 +2,7 @@
 the checks of C11 and C18: `fits_trivially`, `replace_step`, and the range `delete_range` hands to
 `Transform.delete`.  Everything is observed in the harness process only (a `Transform` subclass
 records the arguments of `delete`; nothing in the library is patched)."""
-from prosemirror.model import Slice
+from prosemirror.model import Fragment, Slice
 from prosemirror.transform import Transform
 from prosemirror.transform.replace import fits_trivially, replace_step
 from prosemirror.transform.replace_step import ReplaceAroundStep, ReplaceStep
@@ -177,5 +177,121 @@ def tie_fill_wrap(ctx, info, rng, frags, reqs, metas, per_state=2):
                 ctx.count("find_wrapping exact:" + ("raises" if st != "ok" else "none" if chain is None else "len%d" % len(chain)))
 
 
+# ---------------------------------------------------------------------------------------------
+# replace_range / replace_range_with as wholes (lean/PM/ReplaceRange.lean)
+
+class _ReplaceSpy(Transform):
+    """records the arguments of every `self.replace` call and of a `self.step` call made outside `replace` (the
+    `fits_trivially` path of `replace_range`), and lets them run: the fallback loop of `replace_range` looks at
+    `len(self.steps)` after each call"""
+
+    def __init__(self, doc):
+        super().__init__(doc)
+        self.calls = []
+        self.direct = []
+        self._inside = 0
+
+    def replace(self, from_, to=None, slice=None):
+        self.calls.append((from_, to, slice))
+        self._inside += 1
+        try:
+            return super().replace(from_, to, slice)
+        finally:
+            self._inside -= 1
+
+    def step(self, object):
+        if not self._inside:
+            self.direct.append(object)
+        return super().step(object)
+
+
+def observed_replace_plan(info, doc, thunk):
+    """what the operation asked of the document, in the model's vocabulary: ["direct", [f, t, slice]] (a ReplaceStep handed
+    to `step` without a `replace` call), ["calls", [[f, t, slice], …]] (the arguments of the successive `replace` calls; a
+    call that raises is the last one), RAISES (raised before any of these), or None (did not return in time)"""
+    spy = _ReplaceSpy(doc)
+    st, val = outcome(lambda: thunk(spy))
+    if st == "hang":
+        return None, spy
+    if spy.direct and not spy.calls and len(spy.direct) == 1 and isinstance(spy.direct[0], ReplaceStep) \
+            and not isinstance(spy.direct[0], ReplaceAroundStep):
+        s_ = spy.direct[0]
+        return ["direct", [s_.from_, s_.to, info.slice(s_.slice)]], spy
+    if spy.direct:
+        return "unexpected direct step", spy
+    if spy.calls:
+        return ["calls", [[a, b, info.slice(c if c is not None else Slice.empty)] for (a, b, c) in spy.calls]], spy
+    if st != "ok":
+        return RAISES, spy
+    return ["calls", []], spy
+
+
+def _plan_kind(plan, f, t, sl_enc):
+    if plan == RAISES or not isinstance(plan, list):
+        return str(plan)
+    if plan[0] == "direct":
+        return "direct step (fits trivially)"
+    cs = plan[1]
+    if len(cs) != 1:
+        return "fallback loop, %d calls" % len(cs)
+    a, b, c = cs[0]
+    return "one call:" + ("same range" if (a, b) == (f, t) else "range widened") + "," + \
+        ("same slice" if c == sl_enc else "slice closed (open_start %d of %d)" % (c[1], sl_enc[1]))
+
+
+def tie_replace_range(ctx, info, doc, f, t, sl, reqs, metas, extra=None):
+    """Transform.replace_range(f, t, slice): the whole sequence of `(from, to, slice)` it hands to `self.replace`
+    (or the direct step), exactly"""
+    plan, spy = observed_replace_plan(info, doc, lambda tr: tr.replace_range(f, t, sl))
+    if plan is None:
+        ctx.count("replace_range plan:hang (not compared)")
+        return None
+    replay = {"schema": info.name, "doc": doc.to_json(), "op": "replace_range", "args": [f, t, sl.to_json()], **(extra or {})}
+    reqs.append({"op": "replaceRangePlan", "s": info.lean_id, "doc": info.node(doc), "from": f, "to": t, "slice": info.slice(sl)})
+    metas.append(("replaceRangePlan", replay, plan))
+    ctx.count("replace_range plan:" + ("empty slice -> delete_range" if not sl.size else _plan_kind(plan, f, t, info.slice(sl))))
+    return plan
+
+
+def tie_replace_range_with(ctx, info, doc, f, t, node, reqs, metas, extra=None):
+    """Transform.replace_range_with(f, t, node): the `(from, to)` it passes on (insert_point or the original pair) and the
+    whole sequence of `replace` calls, exactly"""
+    plan, spy = observed_replace_plan(info, doc, lambda tr: tr.replace_range_with(f, t, node))
+    if plan is None:
+        ctx.count("replace_range_with plan:hang (not compared)")
+        return None
+    replay = {"schema": info.name, "doc": doc.to_json(), "op": "replace_range_with", "args": [f, t, node.to_json()], **(extra or {})}
+    reqs.append({"op": "replaceRangeWithPlan", "s": info.lean_id, "doc": info.node(doc), "from": f, "to": t, "node": info.node(node)})
+    metas.append(("replaceRangeWithPlan", replay, plan))
+    # the pair handed to replace_range, observed separately through a subclass that stops there
+    seen = []
+
+    class _Stop(Transform):
+        def replace_range(self, from_, to, slice):
+            seen.append([from_, to])
+            return self
+
+    st, _ = outcome(lambda: _Stop(doc).replace_range_with(f, t, node))
+    tgt = seen[0] if st == "ok" and len(seen) == 1 else RAISES
+    reqs.append({"op": "replaceRangeWithTarget", "s": info.lean_id, "doc": info.node(doc), "from": f, "to": t, "node": info.node(node)})
+    metas.append(("replaceRangeWithTarget", replay, tgt))
+    ctx.count("replace_range_with target:" + ("raises" if tgt == RAISES else "same" if tgt == [f, t] else "insert point"))
+    ctx.count("replace_range_with plan:" + _plan_kind(plan, tgt[0] if tgt != RAISES else f, tgt[1] if tgt != RAISES else t,
+                                                      info.slice(Slice(Fragment.from_(node), 0, 0))))
+    return plan
+
+
+def tie_close_fragment(ctx, info, sl, reqs, metas):
+    """close_fragment(slice.content, 0, slice.open_start, open_depth, None, slice.open_end) — the call replace_range
+    makes — for every open_depth ≤ open_start, exactly"""
+    from prosemirror.transform.replace import close_fragment
+    for od in range(sl.open_start + 1):
+        st, frag = outcome(lambda: close_fragment(sl.content, 0, sl.open_start, od, None, sl.open_end))
+        exp = info.frag(frag) if st == "ok" else RAISES
+        reqs.append({"op": "closeSlice", "s": info.lean_id, "slice": info.slice(sl), "openDepth": od})
+        metas.append(("closeSlice", {"schema": info.name, "slice": sl.to_json(), "open_depth": od}, exp))
+        ctx.count("close_fragment:" + ("raises" if st != "ok" else "unchanged" if frag == sl.content else "filled"))
+
+
 EXACT_OPS = ("fitsTrivially", "replaceStepTrivial", "deleteRangeTarget", "deleteRangeStep", "replaceStep", "fillBeforeO",
-             "findWrappingO")
+             "findWrappingO", "replaceRangePlan", "replaceRangeWithPlan", "replaceRangeWithTarget", "closeSlice")
